@@ -24,14 +24,27 @@ Hi(k) == (k * N) \div NChunks
 OpNames == <<"MoveTo", "LineTo", "QuadTo", "CubeTo", "ArcTo", "Arc", "Close", "Append", "Join">>
 ShapeNames == <<"Shape:Line", "Shape:Rectangle", "Shape:BeveledRectangle", "Shape:RoundedRectangle", "Shape:Circle", "Shape:Ellipse", "Shape:Grid",
                 "Shape:Arc", "Shape:EllipticalArc", "Shape:Triangle", "Shape:RegularPolygon", "Shape:RegularStarPolygon", "Shape:StarPolygon">>
-OpName(k) == IF k > 100 THEN ShapeNames[k - 100] ELSE OpNames[k]
+\* 200 "RoundTrip": sm = stream of p, <<0>>, stream of ParseSVGPath(p.String())   (C11: classify a failed round trip)
+\* 201 "Free": no expectation about the geometry, only well-formedness (C11: paths parsed from arbitrary strings)
+OpName(k) == IF k = 200 THEN "RoundTrip" ELSE IF k = 201 THEN "Free" ELSE IF k > 100 THEN ShapeNames[k - 100] ELSE OpNames[k]
+IsRoundTrip(h) == Len(h) = 1 /\ h[1].op = "RoundTrip"
+IsFree(h) == Len(h) = 1 /\ h[1].op = "Free"
+MarkAt(sm) == CHOOSE i \in 1..Len(sm) : sm[i] = <<0>>
+RoundTripVerdict(sm) ==
+  LET k == MarkAt(sm) a == SubSeq(sm, 1, k - 1) b == SubSeq(sm, k + 1, Len(sm)) IN
+  IF a = b THEN "ok"
+  ELSE IF NF(StreamSubs(a)) = NF(StreamSubs(b)) /\ Len(b) < Len(a) THEN "remerged"      \* same geometry, collinear lines merged again
+  ELSE IF NF(StreamSubs(a)) = NF(StreamSubs(b)) THEN "same-geometry-other-stream"
+  ELSE "differs"
 HistOf(h) == [i \in 1..Len(h) |-> Call(OpName(h[i][1]), SubSeq(h[i], 2, Len(h[i])))]
 \* off = 1: some decoded value that should be a lattice value is not (the stream then holds the rounded values)
 EvOf(i) == [id |-> Trace[i][1], hist |-> HistOf(Trace[i][2]), sm |-> Trace[i][3], off |-> Trace[i][4]]
 
 Verdict(ev, m) ==
-  LET wf == WFViolations(ev.sm)
-      g0 == IF IsShape(ev.hist) THEN ShapeVerdict(ev.hist[1], NF(StreamSubs(ev.sm)))
+  LET wf == IF IsRoundTrip(ev.hist) THEN {} ELSE WFViolations(ev.sm)
+      g0 == IF IsRoundTrip(ev.hist) THEN RoundTripVerdict(ev.sm)
+            ELSE IF IsFree(ev.hist) THEN "free"
+            ELSE IF IsShape(ev.hist) THEN ShapeVerdict(ev.hist[1], NF(StreamSubs(ev.sm)))
             ELSE IF NF(StreamSubs(ev.sm)) = NF(m.subs) THEN "ok" ELSE GeomVerdict(ev.hist, ev.sm)
       g  == IF ev.off = 1 /\ g0 # "free" THEN "offgrid" ELSE g0 IN
   [id |-> ev.id, wf |-> wf, geom |-> g, exp |-> SubsJson(NF(m.subs)), pen |-> m.pen]
